@@ -476,6 +476,9 @@ def run_case(desc):
                 bf.pattern, type(bf.exc).__name__, str(bf.exc)[:400]))
     expr = root.obj
     reg = _region(env, tree)
+    # building an expression must not change the vector operands the caller
+    # passed in (they are the caller's objects and may be used again)
+    _operands_unchanged(env, root, reg, 'constructing')
 
     # ---- rejection stratum ------------------------------------------------
     if desc.get('mode') == 'reject':
@@ -602,6 +605,8 @@ def run_case(desc):
                 _alias_sweep(env, root, x, depth, True)
             raise
 
+    _operands_unchanged(env, root, reg, 'evaluating')
+
     # ---- is_linear => numerically linear ------------------------------------
     if expr.is_linear and len(pts) >= 2 and statuses[0] == statuses[1] == 'ok':
         a = ex.scalar_value(desc['lin'][0])
@@ -668,6 +673,8 @@ def run_case(desc):
                 strata.append('nest:{}<{}'.format(_cls(b.obj), _cls(k.obj)))
         if b.shortcut:
             strata.append('shortcut:' + b.shortcut)
+        if b.vec_shared:
+            strata.append('shared-vector-operand')
         if node['op'] in ('rscal', 'div', 'rvec'):
             rightish = True
         if node['op'] == 'pow' and node['n'] >= 3:
@@ -689,6 +696,33 @@ def run_case(desc):
     return Outcome('ok', strata=strata, nontrivial=nontriv,
                    notes={'points_' + s: statuses.count(s)
                           for s in set(statuses)})
+
+
+def _operands_unchanged(env, root, reg, when):
+    """Every vector operand of the expression still holds, bit for bit, the
+    values it was created with."""
+    for b in ex.walk(root):
+        if b.vec is None:
+            continue
+        key = b.node['ran'] if b.node['op'] in ('lvec', 'flvec', 'addvec') \
+            else b.node['dom']
+        if env.info(key).cat == 'field':
+            continue
+        now = ex.to_np(b.vec, env.set(key))
+        if not _same_bits(now, b.vec_np):
+            raise Violation(
+                'C04|operand-modified|{}|{}'.format(_site(b), reg),
+                '{} the expression {} changed the vector operand of {}: '
+                '{!r} -> {!r}'.format(when, _pattern(root), _pattern(b),
+                                      _short(b.vec_np), _short(now)))
+
+
+def _same_bits(a, b):
+    if isinstance(a, (list, tuple)):
+        return all(_same_bits(p, q) for p, q in zip(a, b))
+    a, b = np.asarray(a), np.asarray(b)
+    return a.shape == b.shape and bool(
+        np.all((a == b) | ((a != a) & (b != b))))
 
 
 def _nonlinear_culprit(env, root):
@@ -720,6 +754,7 @@ REQUIRED_STRATA = [
     'shortcut:RightScalar*vector', 'field:cplx', 'field:real',
     'space:discr', 'dtype:float32', 'weighting:array', 'weighting:const',
     'fk:func', 'inplace', 'linearity-checked', 'alias-inplace',
+    'shared-vector-operand', 'leaf:flatten',
     'alias-inplace:v*f', 'alias-inplace:lscal(v*f)',
     'alias-inplace:addvec(v*f)', 'pow:n>=3:stencil', 'leaf-oop-only', 'sum-oop-only:left',
     'sum-oop-only:right', 'ctor:lscal:rmatmul', 'ctor:rscal:matmul',
